@@ -6,20 +6,26 @@
   ESC-free, and (when the size is the one last rendered at and the cache is non-empty) every row from the origin down
   shows what the cache says.
 
-  C07_render   (PROVED, full strength) one render from any related state, ALL arrays; the clauses are the fields of
+  FINDING D41 (open): the property's quantifier puts no bound on the row lengths and the docstring says a too wide array
+  is rendered anyway - but a row longer than the terminal wraps and, on the bottom row, scrolls the screen by lines
+  the window does not count.  `C07_render_full_statement` / `C07_history_full_statement` (no bound) are REFUTED:
+  `C07_D41_witness` (decide on model + terminal spec: 3x3, cursor on row 2, ['abcde'] -> one line scrolled, 0 returned,
+  top_usable_row still 2), `C07_D41_refutes`, `C07_D41_history_refutes`.  The theorems below carry the complement of
+  the finding's footprint, `len l ≤ t.w` for every row, hence the names `_partial`.
+  C07_render_partial   (PROVED) one render from any related state, ALL arrays whose rows fit the width; the clauses are the fields of
       `C07.RenderPost`: (a)+(b) `shown`: `full` afterwards is `full` before cut at the window's first row, followed by the
       array's rows (padded) and blanks — so content above the window only ever moves up into scrollback and is never
       altered; (c) `scrolled`: scrollback grew by exactly max 0 (len array - rows available); (d) `returned` = rows
       pushed off the top; (e) `origin`; (f) `cursorRow/cursorCol/noPendingWrap/lastRow`: cursor on the cell cursor_pos
       designates and `_last_cursor_row` equal to the terminal's cursor row; (g) `rel`: `Rel` again.
-  C07_history  (PROVED) after EVERY render of any sequence of renders all clauses of `C07.RenderPost` hold for it, and
+  C07_history_partial  (PROVED) after EVERY render of any sequence of renders all clauses of `C07.RenderPost` hold for it, and
       everything above the window's first row at the start (scrollback and screen rows) is still there unaltered
       (`C07_run_rel`: `Rel` is maintained along the way).
   C07_then_diff (PROVED) composition with C18: after a render the window knows the terminal's cursor row; if the content
       then moves by k rows, `_get_cursor_vertical_diff_once` accounts for exactly k.
   C07_enter    (PROVED) `__enter__`: the terminal's own answer to ESC[6n, parsed by get_cursor_position (C18_parse with
       the decimal round trip C18_decimal), makes top_usable_row the terminal's cursor row; `C07_enter_rel`: the entered
-      window is related to the terminal (cursor on a screen row, main screen), so `C07_render` applies to its first render.
+      window is related to the terminal (cursor on a screen row, main screen), so `C07_render_partial` applies to its first render.
   C07_exit     (PROVED) `__exit__` (keep_last_line on/off) alters only rows from the cursor row down (below it with
       keep_last_line); on the bottom row with keep_last_line the screen scrolls one line and nothing is lost.
   C07_accounting, C07_render_fits, C07_history_fits, C07_scroll_step,
@@ -200,8 +206,8 @@ theorem C07_accounting (win : CAWin) (h w : Nat) (arr : List FmtStr) (pos : Nat 
 
 /-! ### the render that fits (no scroll), on the terminal spec -/
 
-theorem C07_render_fits (win : CAWin) (t : Term) (arr : List FmtStr) (pos : Nat × Nat)
-    (hrel : Rel win t) (hbg : t.g = {}) (hrows0 : ∀ l ∈ arr, Printable l ∧ len l ≤ t.w)
+theorem C07_render_fits (u : UEnv) (win : CAWin) (t : Term) (arr : List FmtStr) (pos : Nat × Nat)
+    (hrel : Rel win t) (hbg : t.g = {}) (hrows0 : ∀ l ∈ arr, Glyphs u l ∧ len l ≤ t.w)
     (hfits : arr.length ≤ t.h - win.top.toNat)
     (hpos : (pos.1 < arr.length ∨ (arr = [] ∧ pos.1 = 0)) ∧ pos.2 < t.w) :
     -- (a) rows above the window's first row and the scrollback are untouched
@@ -225,7 +231,7 @@ theorem C07_render_fits (win : CAWin) (t : Term) (arr : List FmtStr) (pos : Nat 
     (exec t (renderCursorAware win t.h t.w arr pos).2.1).g = {} ∧
     -- (g)
     Rel (renderCursorAware win t.h t.w arr pos).1 (exec t (renderCursorAware win t.h t.w arr pos).2.1) := by
-  have hrows : ∀ l ∈ arr, EscFree l ∧ len l ≤ t.w := fun l hl => ⟨(hrows0 l hl).1.escFree, (hrows0 l hl).2⟩
+  have hrows : ∀ l ∈ arr, EscFree l ∧ len l ≤ t.w := fun l hl => ⟨(hrows0 l hl).1.1.escFree, (hrows0 l hl).2⟩
   rw [renderCursorAware_eq]
   simp only []
   generalize hk : win.top.toNat = k at hfits ⊢
@@ -359,17 +365,17 @@ def C07.run : CAWin → Term → List (List FmtStr × (Nat × Nat)) → CAWin ×
   | win, t, (arr, pos) :: rest =>
     C07.run (renderCursorAware win t.h t.w arr pos).1 (exec t (renderCursorAware win t.h t.w arr pos).2.1) rest
 
-def C07.ValidFits : CAWin → Term → List (List FmtStr × (Nat × Nat)) → Prop
+def C07.ValidFits (u : UEnv) : CAWin → Term → List (List FmtStr × (Nat × Nat)) → Prop
   | _, _, [] => True
   | win, t, (arr, pos) :: rest =>
-    (∀ l ∈ arr, Printable l ∧ len l ≤ t.w) ∧ arr.length ≤ t.h - win.top.toNat ∧
+    (∀ l ∈ arr, Glyphs u l ∧ len l ≤ t.w) ∧ arr.length ≤ t.h - win.top.toNat ∧
     ((pos.1 < arr.length ∨ (arr = [] ∧ pos.1 = 0)) ∧ pos.2 < t.w) ∧
-    C07.ValidFits (renderCursorAware win t.h t.w arr pos).1 (exec t (renderCursorAware win t.h t.w arr pos).2.1) rest
+    C07.ValidFits u (renderCursorAware win t.h t.w arr pos).1 (exec t (renderCursorAware win t.h t.w arr pos).2.1) rest
 
 /-- Over any sequence of renders that fit below the window's origin: the relation is maintained, the origin never
     moves, nothing scrolls, and every cell above the origin keeps its content throughout. -/
-theorem C07_history_fits (steps : List (List FmtStr × (Nat × Nat))) :
-    ∀ (win : CAWin) (t : Term), Rel win t → t.g = {} → C07.ValidFits win t steps →
+theorem C07_history_fits (u : UEnv) (steps : List (List FmtStr × (Nat × Nat))) :
+    ∀ (win : CAWin) (t : Term), Rel win t → t.g = {} → C07.ValidFits u win t steps →
       Rel (C07.run win t steps).1 (C07.run win t steps).2 ∧ (C07.run win t steps).2.g = {} ∧
       (C07.run win t steps).1.top = win.top ∧ (C07.run win t steps).2.scrollback = t.scrollback ∧
       (C07.run win t steps).2.h = t.h ∧
@@ -380,7 +386,7 @@ theorem C07_history_fits (steps : List (List FmtStr × (Nat × Nat))) :
     intro win t hr hb hv
     obtain ⟨arr, pos⟩ := st
     obtain ⟨h1, h2, h3, h4⟩ := hv
-    have r := C07_render_fits win t arr pos hr hb h1 h2 h3
+    have r := C07_render_fits u win t arr pos hr hb h1 h2 h3
     obtain ⟨ra, rsb, _, _, rtop, _, _, _, _, _, rh, _, rbg, rrel⟩ := r
     obtain ⟨i1, i2, i3, i4, i5, i6⟩ := ih _ _ rrel rbg h4
     refine ⟨i1, i2, by rw [C07.run, i3, rtop], by rw [C07.run, i4, rsb], by rw [C07.run, i5, rh], ?_⟩
@@ -736,12 +742,12 @@ theorem C07.full_congr (t t' : Term) (h : t'.h = t.h) (w : t'.w = t.w) (sb : t'.
     (g : t'.grid = t.grid) : full t' = full t := by
   simp [full, Term.screen, Term.row, h, w, sb, g]
 
-theorem C07_render (win : CAWin) (t : Term) (arr : List FmtStr) (pos : Nat × Nat)
+theorem C07_render_partial (u : UEnv) (win : CAWin) (t : Term) (arr : List FmtStr) (pos : Nat × Nat)
     (hrel : Rel win t) (hbg : t.g = {}) (hmax : t.h ≤ 1000001)
-    (hrows0 : ∀ l ∈ arr, Printable l ∧ len l ≤ t.w)
+    (hrows0 : ∀ l ∈ arr, Glyphs u l ∧ len l ≤ t.w)
     (hpos : pos.1 < arr.length ∨ (arr = [] ∧ pos.1 = 0)) :
     RenderPost win t arr pos (renderCursorAware win t.h t.w arr pos) := by
-  have hrows : ∀ l ∈ arr, EscFree l ∧ len l ≤ t.w := fun l hl => ⟨(hrows0 l hl).1.escFree, (hrows0 l hl).2⟩
+  have hrows : ∀ l ∈ arr, EscFree l ∧ len l ≤ t.w := fun l hl => ⟨(hrows0 l hl).1.1.escFree, (hrows0 l hl).2⟩
   rw [renderCursorAware_eq]
   simp only []
   generalize hk : win.top.toNat = k
@@ -931,31 +937,31 @@ theorem C07_render (win : CAWin) (t : Term) (arr : List FmtStr) (pos : Nat × Na
 
 /-- the property's domain for a sequence of renders: rows ESC-free and no wider than the terminal, cursor_pos on a
     cell of the array -/
-def C07.ValidSeq : CAWin → Term → List (List FmtStr × (Nat × Nat)) → Prop
+def C07.ValidSeq (u : UEnv) : CAWin → Term → List (List FmtStr × (Nat × Nat)) → Prop
   | _, _, [] => True
   | win, t, (arr, pos) :: rest =>
-    (∀ l ∈ arr, Printable l ∧ len l ≤ t.w) ∧ (pos.1 < arr.length ∨ (arr = [] ∧ pos.1 = 0)) ∧
-    C07.ValidSeq (renderCursorAware win t.h t.w arr pos).1 (exec t (renderCursorAware win t.h t.w arr pos).2.1) rest
+    (∀ l ∈ arr, Glyphs u l ∧ len l ≤ t.w) ∧ (pos.1 < arr.length ∨ (arr = [] ∧ pos.1 = 0)) ∧
+    C07.ValidSeq u (renderCursorAware win t.h t.w arr pos).1 (exec t (renderCursorAware win t.h t.w arr pos).2.1) rest
 
 /-- Over ANY sequence of renders (fitting or scrolling): the relation is maintained, and everything that was above the
     window's first row at the start — scrollback and screen rows — is still there, in order and unaltered: it only
     ever moves up. -/
-theorem C07_run_rel (steps more : List (List FmtStr × (Nat × Nat))) :
-    ∀ (win : CAWin) (t : Term), Rel win t → t.g = {} → t.h ≤ 1000001 → C07.ValidSeq win t (steps ++ more) →
+theorem C07_run_rel (u : UEnv) (steps more : List (List FmtStr × (Nat × Nat))) :
+    ∀ (win : CAWin) (t : Term), Rel win t → t.g = {} → t.h ≤ 1000001 → C07.ValidSeq u win t (steps ++ more) →
       Rel (C07.run win t steps).1 (C07.run win t steps).2 ∧ (C07.run win t steps).2.g = {} ∧
       (C07.run win t steps).2.h = t.h ∧
       (full (C07.run win t steps).2).take (t.scrollback.length + win.top.toNat) =
         (full t).take (t.scrollback.length + win.top.toNat) ∧
       t.scrollback.length + win.top.toNat ≤
         (C07.run win t steps).2.scrollback.length + (C07.run win t steps).1.top.toNat ∧
-      C07.ValidSeq (C07.run win t steps).1 (C07.run win t steps).2 more := by
+      C07.ValidSeq u (C07.run win t steps).1 (C07.run win t steps).2 more := by
   induction steps with
   | nil => intro win t hr hb _ hv; exact ⟨hr, hb, rfl, rfl, Nat.le_refl _, hv⟩
   | cons st rest ih =>
     intro win t hr hb hmax hv
     obtain ⟨arr, pos⟩ := st
     obtain ⟨h1, h2, h3⟩ := hv
-    have r := C07_render win t arr pos hr hb hmax h1 h2
+    have r := C07_render_partial u win t arr pos hr hb hmax h1 h2
     obtain ⟨i1, i2, i3, i4, i5, i6⟩ := ih _ _ r.rel r.bg (by rw [r.height]; exact hmax) h3
     have hcut : t.scrollback.length + win.top.toNat ≤ (full t).length := by
       rw [full_length]; have := hr.top.2; omega
@@ -976,17 +982,17 @@ theorem C07_run_rel (steps more : List (List FmtStr × (Nat × Nat))) :
 /-- After EVERY render of every history of renders — whatever was rendered before, however much scrolled — all the
     clauses (a)-(g) of `C07.RenderPost` hold for that render (relative to the terminal just before it), and everything
     that was above the window's first row at the very start is still there unaltered. -/
-theorem C07_history (steps : List (List FmtStr × (Nat × Nat))) (arr : List FmtStr) (pos : Nat × Nat)
+theorem C07_history_partial (u : UEnv) (steps : List (List FmtStr × (Nat × Nat))) (arr : List FmtStr) (pos : Nat × Nat)
     (win : CAWin) (t : Term) (hrel : Rel win t) (hg : t.g = {}) (hmax : t.h ≤ 1000001)
-    (hv : C07.ValidSeq win t (steps ++ [(arr, pos)])) :
+    (hv : C07.ValidSeq u win t (steps ++ [(arr, pos)])) :
     RenderPost (C07.run win t steps).1 (C07.run win t steps).2 arr pos
       (renderCursorAware (C07.run win t steps).1 (C07.run win t steps).2.h (C07.run win t steps).2.w arr pos) ∧
     (full (C07.run win t (steps ++ [(arr, pos)])).2).take (t.scrollback.length + win.top.toNat) =
       (full t).take (t.scrollback.length + win.top.toNat) := by
-  obtain ⟨i1, i2, i3, _, _, i6⟩ := C07_run_rel steps [(arr, pos)] win t hrel hg hmax hv
+  obtain ⟨i1, i2, i3, _, _, i6⟩ := C07_run_rel u steps [(arr, pos)] win t hrel hg hmax hv
   obtain ⟨h1, h2, _⟩ := i6
-  refine ⟨C07_render _ _ arr pos i1 i2 (by rw [i3]; exact hmax) h1 h2, ?_⟩
-  have := C07_run_rel (steps ++ [(arr, pos)]) [] win t hrel hg hmax (by simpa using hv)
+  refine ⟨C07_render_partial u _ _ arr pos i1 i2 (by rw [i3]; exact hmax) h1 h2, ?_⟩
+  have := C07_run_rel u (steps ++ [(arr, pos)]) [] win t hrel hg hmax (by simpa using hv)
   exact this.2.2.2.1
 
 /-- C07 and C18 composed: after a render the window knows the terminal's cursor row (`lastRow`); if the terminal
@@ -1102,7 +1108,7 @@ theorem C07_enter (win : CAWin) (t : Term) (cb : Bool) :
   simp
 
 
-/-- ... and the freshly entered window is related to the terminal: `C07_render` applies to its first render. -/
+/-- ... and the freshly entered window is related to the terminal: `C07_render_partial` applies to its first render. -/
 theorem C07_enter_rel (win : CAWin) (t : Term) (hc : win.cache = []) (hr : t.r < t.h) (hmain : t.alt = none) :
     Rel { win with top := (t.r : Int) } (exec t ([TermOp.dsr] ++ (if win.hideCursor then [TermOp.hide] else []))) ∧
     (exec t ([TermOp.dsr] ++ (if win.hideCursor then [TermOp.hide] else []))).g = t.g ∧
@@ -1123,5 +1129,65 @@ theorem C07_enter_rel (win : CAWin) (t : Term) (hc : win.cache = []) (hr : t.r <
   · rw [f.2.1]; exact hmain
   · intro _ _ hne
     exact absurd hc hne
+
+
+/-! ### finding D41: rows longer than the terminal -/
+
+/-- The property for one render as its text has it: NO bound on the row lengths ("if array received is of width too
+    large, render it anyway").  FALSE of the code (finding D41, `C07_D41_witness`): a row longer than the terminal wraps
+    and, on the bottom row, scrolls the screen by lines the window does not count. -/
+def C07_render_full_statement : Prop :=
+  ∀ (u : UEnv) (win : CAWin) (t : Term) (arr : List FmtStr) (pos : Nat × Nat),
+    Rel win t → t.g = {} → t.h ≤ 1000001 → (∀ l ∈ arr, Glyphs u l) →
+    (pos.1 < arr.length ∨ (arr = [] ∧ pos.1 = 0)) →
+    RenderPost win t arr pos (renderCursorAware win t.h t.w arr pos)
+
+def C07.d41Win : CAWin := { top := 2 }
+def C07.d41Term : Term := { h := 3, w := 3, r := 2, grid := fun r _ => if r < 2 then ('$', {}) else blank }
+def C07.d41Arr : List FmtStr := [[⟨"abcde".toList, {}⟩]]
+
+/-- D41 on the model and the terminal spec: 3x3 terminal, two lines of earlier output, window entered on the bottom
+    row; rendering the single row 'abcde' wraps after 'abc' and scrolls the screen: one line goes to the scrollback,
+    yet 0 is returned and top_usable_row stays 2. -/
+theorem C07_D41_witness :
+    (exec d41Term (renderCursorAware d41Win 3 3 d41Arr (0, 0)).2.1).scrollback.length = 1 ∧
+    (renderCursorAware d41Win 3 3 d41Arr (0, 0)).2.2 = 0 ∧
+    (renderCursorAware d41Win 3 3 d41Arr (0, 0)).1.top = 2 := by
+  decide +kernel
+
+theorem C07_D41_refutes : ¬ C07_render_full_statement := by
+  intro h
+  have hrel : Rel d41Win d41Term := ⟨fun _ _ h => by simp [d41Win, get_nil] at h, by decide, rfl, fun h => by simp [d41Win] at h⟩
+  have r := h ⟨fun _ => 1, fun _ => false⟩ d41Win d41Term d41Arr (0, 0) hrel rfl (by decide)
+    (by
+      intro l hl
+      simp [d41Arr] at hl
+      subst hl
+      refine ⟨?_, fun _ _ => rfl⟩
+      intro ch hch; revert ch; decide)
+    (Or.inl (by decide))
+  have := r.scrolled
+  have w := C07_D41_witness.1
+  simp only [d41Term] at this w
+  rw [w] at this
+  revert this
+  decide
+
+/-- the domain of a sequence of renders as the property has it: no bound on the row lengths -/
+def C07.ValidSeqFull (u : UEnv) : CAWin → Term → List (List FmtStr × (Nat × Nat)) → Prop
+  | _, _, [] => True
+  | win, t, (arr, pos) :: rest =>
+    (∀ l ∈ arr, Glyphs u l) ∧ (pos.1 < arr.length ∨ (arr = [] ∧ pos.1 = 0)) ∧
+    C07.ValidSeqFull u (renderCursorAware win t.h t.w arr pos).1 (exec t (renderCursorAware win t.h t.w arr pos).2.1) rest
+
+/-- `C07_history_partial` without the bound on the row lengths: FALSE of the code for the same reason (D41). -/
+def C07_history_full_statement : Prop :=
+  ∀ (u : UEnv) (steps : List (List FmtStr × (Nat × Nat))) (arr : List FmtStr) (pos : Nat × Nat) (win : CAWin) (t : Term),
+    Rel win t → t.g = {} → t.h ≤ 1000001 → C07.ValidSeqFull u win t (steps ++ [(arr, pos)]) →
+    RenderPost (C07.run win t steps).1 (C07.run win t steps).2 arr pos
+      (renderCursorAware (C07.run win t steps).1 (C07.run win t steps).2.h (C07.run win t steps).2.w arr pos)
+
+theorem C07_D41_history_refutes : ¬ C07_history_full_statement := fun h =>
+  C07_D41_refutes fun u win t arr pos hr hg hm hrows hpos => h u [] arr pos win t hr hg hm ⟨hrows, hpos, trivial⟩
 
 end Curtsies
